@@ -675,7 +675,13 @@ fn replay_line(line: &str) -> String {
             let db = decode_db(&mut next);
             assert_eq!(next(), "K");
             let crash_at = next().parse::<usize>().ok();
+            let mut pre = vec![];
+            if i < t.len() && t[i] == "P" {
+                let n: usize = t[i + 1].parse().unwrap();
+                pre = (0..n).map(|k| unhx(t[i + 2 + k])).collect();
+            }
             let c = treeop::UpdateCase {
+                pre,
                 strict_cols,
                 sep,
                 threshold,
